@@ -249,7 +249,7 @@ theorem mkVisit_node (rp : List Name) (d : Nat) (n : Node α) : (mkVisit c rp d 
 
 /-- a leaf that is evaluated: whichever way the walk reports it, as long as the entry view is the
     reference's -/
-theorem leaf_eval (hp : PruneOk c ev) (rp : List Name) (d : Nat) (nm : Name) (k : LeafKind) (a : α)
+theorem leaf_eval (hp : c.depthFirst = true ∨ PruneOk c ev) (rp : List Name) (d : Nat) (nm : Name) (k : LeafKind) (a : α)
     (S : MState α) (A : Acc σ) (kP : Acc σ → Res σ)
     (hno : (k == .linkLoop && c.follows d) = false) :
     evalAt c ev (mkVisit c rp d (.leaf nm k a)) A kP (loopA c ev S) =
@@ -257,6 +257,8 @@ theorem leaf_eval (hp : PruneOk c ev) (rp : List Name) (d : Nat) (nm : Name) (k 
   rw [refNode]
   simp only [hno, Bool.false_eq_true, if_false]
   rw [andThen_visit]
+  rcases hp with hd | hp
+  · unfold evalAt; simp [hd]
   apply evalAt_noprune
   intro s
   have := hp (mkVisit c rp d (.leaf nm k a)) s
@@ -301,10 +303,10 @@ theorem node_pre (hpre : c.depthFirst = false) (hp : PruneOk c ev) (n : Node α)
       first
       | exact leaf_loop c ev rp fs.length nm _ a _ A _ hmax (by simp [follows_iff, hf, hD])
       | (refine (stepA_entry2 c ev _ _ _ _ _ A).trans ?_
-         refine Eq.trans ?_ (leaf_eval c ev hp rp fs.length nm _ a _ A (loopA c ev (skipCurrent ⟨none, fs, dfr⟩)) (by simp [follows_iff, hf, hD]))
+         refine Eq.trans ?_ (leaf_eval c ev (Or.inr hp) rp fs.length nm _ a _ A (loopA c ev (skipCurrent ⟨none, fs, dfr⟩)) (by simp [follows_iff, hf, hD]))
          congr 1 <;> simp [mkVisit, hf, hD, LeafKind.isLink, follows_iff])
       | (rw [stepA_visit c ev _ _ rfl]
-         refine Eq.trans ?_ (leaf_eval c ev hp rp fs.length nm _ a _ A (loopA c ev (skipCurrent ⟨none, fs, dfr⟩)) (by simp [follows_iff, hf, hD]))
+         refine Eq.trans ?_ (leaf_eval c ev (Or.inr hp) rp fs.length nm _ a _ A (loopA c ev (skipCurrent ⟨none, fs, dfr⟩)) (by simp [follows_iff, hf, hD]))
          congr 1 <;> simp [mkVisit, toVisit, hf, hD, LeafKind.isLink, follows_iff])
   | .dir nm l r a kids =>
     rw [refNode_dir_pre c ev hpre]
@@ -396,6 +398,239 @@ theorem processRoot_pre (hpre : c.depthFirst = false) (hp : PruneOk c ev) (root 
   split
   · simp_all
   · rw [loopA_nil c ev [] _ hpre]
+    simp_all
+
+/-! ### post-order (`-depth`) -/
+
+def visitOf (d : Ent α) : Visit α := ⟨d, d.depth == 0 && c.follow != .never, c.follow⟩
+
+theorem evalAt_post (hpost : c.depthFirst = true) (v : Visit α) (A : Acc σ) (k1 k2 k : Acc σ → Res σ) :
+    evalAt c ev v A k1 k = evalAt c ev v A k2 k := by
+  unfold evalAt; simp [hpost]
+
+theorem loopA_nil_post (A : Acc σ) (hpost : c.depthFirst = true) :
+    loopA c ev ⟨none, [], []⟩ A = resOf false A := by
+  rw [loopA_eq]
+  simp [step, hpost, stepA, loopStep, resOf]
+
+/-- the listing of a directory is exhausted (or lies beyond maxdepth): it is dropped and the
+    deferred directory itself is evaluated -/
+theorem pop_post (hpost : c.depthFirst = true) (f : Frame α) (fs : List (Frame α)) (d : Ent α) (ds : List (Ent α))
+    (A : Acc σ) (k0 : Acc σ → Res σ) (hlen : fs.length = ds.length) (hd : d.depth = fs.length)
+    (hgo : fs.length + 1 > c.maxDepth ∨ (f.kids = [] ∧ f.pendingErr = false)) :
+    loopA c ev ⟨none, f :: fs, d :: ds⟩ A =
+      evalAt c ev (visitOf c d) A k0 (loopA c ev ⟨none, fs, ds⟩) := by
+  have h1 : loopA c ev ⟨none, f :: fs, d :: ds⟩ A = loopA c ev ⟨none, fs, d :: ds⟩ A := by
+    rw [loopA_eq]
+    have hnl : ¬ (fs.length + 1 < ds.length + 1) := by omega
+    simp only [step, optsOf_cf, hpost, Bool.true_and, List.length_cons, decide_eq_true_eq, hnl, if_false, optsOf_max]
+    rcases hgo with hgo | hgo
+    · simp only [hgo, if_true]; rfl
+    · by_cases hm : fs.length + 1 > c.maxDepth
+      · simp only [hm, if_true]; rfl
+      · simp only [hm, if_false, hgo.2, Bool.false_eq_true, hgo.1]; rfl
+  rw [h1, loopA_eq, evalAt_post c ev hpost _ A k0 (loopA c ev (skipCurrent ⟨none, fs, ds⟩))]
+  cases fs with
+  | nil =>
+    have hds : ds = [] := by cases ds <;> simp_all
+    subst hds
+    simp only [step, optsOf_cf, hpost, if_true]
+    have hd0 : d.depth = 0 := by simpa using hd
+    by_cases hs : skippable (optsOf c) 0 = true
+    · simp only [hs, if_true]
+      have : inRange c (visitOf c d).ent.depth = false := by
+        show inRange c d.depth = false
+        rw [hd0]; exact skippable_not_inRange c 0 hs
+      unfold evalAt
+      simp only [this, Bool.false_eq_true, if_false]
+      rw [loopA_nil_post c ev A hpost]
+      rfl
+    · have := stepA_entry' c ev d ⟨none, [], []⟩ A
+      rw [hd0] at this
+      have hs' : skippable (optsOf c) 0 = false := by simpa using hs
+      simp only [hs', Bool.false_eq_true, if_false] at this ⊢
+      unfold visitOf
+      rw [hd0]
+      exact this
+  | cons f' fs' =>
+    have hlt : (f' :: fs').length < (d :: ds).length := by simp at hlen ⊢; omega
+    simp only [step, optsOf_cf, hpost, Bool.true_and, decide_eq_true_eq, hlt, if_true]
+    have := stepA_entry' c ev d ⟨none, f' :: fs', ds⟩ A
+    rw [hd] at this
+    unfold visitOf
+    rw [hd]
+    exact this
+
+theorem pop_err_post (hpost : c.depthFirst = true) (rp : List Name) (fs : List (Frame α)) (d : Ent α) (ds : List (Ent α))
+    (A : Acc σ) (k0 : Acc σ → Res σ) (hlen : fs.length = ds.length) (hd : d.depth = fs.length)
+    (h : fs.length + 1 ≤ c.maxDepth) :
+    loopA c ev ⟨none, ⟨rp, [], true⟩ :: fs, d :: ds⟩ A =
+      evalAt c ev (visitOf c d) (diag A) k0 (loopA c ev ⟨none, fs, ds⟩) := by
+  rw [loopA_eq]
+  have hnl : ¬ (fs.length + 1 < ds.length + 1) := by omega
+  have h' : ¬ (fs.length + 1 > c.maxDepth) := by omega
+  simp only [step, optsOf_cf, hpost, Bool.true_and, List.length_cons, decide_eq_true_eq, hnl, if_false, optsOf_max,
+    h', if_true]
+  rw [stepA_yield_none c ev _ rfl]
+  exact pop_post c ev hpost _ fs d ds (diag A) k0 hlen hd (Or.inr ⟨rfl, rfl⟩)
+
+theorem refNode_dir_post (hpost : c.depthFirst = true) (rp : List Name) (d : Nat) (nm : Name) (l r : Bool) (a : α)
+    (kids : List (Node α)) (A : Acc σ) (k : Acc σ → Res σ) :
+    andThen (refNode c ev rp d (.dir nm l r a kids) A) k =
+      andThen (belowRef c ev rp d ((!l || c.follows d) && decide (d < c.maxDepth)) r kids A)
+        (fun A' => evalAt c ev (mkVisit c rp d (.dir nm l r a kids)) A' k k) := by
+  rw [refNode]
+  simp only [hpost, if_true]
+  show andThen (let r' := belowRef c ev rp d ((!l || c.follows d) && decide (d < c.maxDepth)) r kids A
+                if r'.1 then r' else
+                  let v := visit c ev rp d (.dir nm l r a kids) r'.2
+                  (v.2.1, v.2.2)) k = _
+  generalize belowRef c ev rp d ((!l || c.follows d) && decide (d < c.maxDepth)) r kids A = r'
+  obtain ⟨q, A'⟩ := r'
+  cases q
+  · simp only [Bool.false_eq_true, if_false]
+    rw [andThen_visit]
+    simp [andThen]
+  · simp [andThen]
+
+theorem below_post (hpost : c.depthFirst = true) (rp : List Name) (readable : Bool) (kids : List (Node α))
+    (fs : List (Frame α)) (d : Ent α) (ds : List (Ent α)) (A : Acc σ) (k0 : Acc σ → Res σ)
+    (hlen : fs.length = ds.length) (hd : d.depth = fs.length)
+    (hk : ∀ A, fs.length + 1 ≤ c.maxDepth →
+      loopA c ev ⟨none, ⟨rp, kids, false⟩ :: fs, d :: ds⟩ A =
+        andThen (refKids c ev rp (fs.length + 1) kids A)
+          (fun A' => evalAt c ev (visitOf c d) A' k0 (loopA c ev ⟨none, fs, ds⟩))) :
+    loopA c ev ⟨none, frameOf rp readable kids :: fs, d :: ds⟩ A =
+      andThen (belowRef c ev rp fs.length (decide (fs.length < c.maxDepth)) readable kids A)
+        (fun A' => evalAt c ev (visitOf c d) A' k0 (loopA c ev ⟨none, fs, ds⟩)) := by
+  unfold belowRef
+  by_cases hm : fs.length < c.maxDepth
+  · simp only [hm, decide_true, if_true]
+    cases readable with
+    | true => simpa [frameOf] using hk A (by omega)
+    | false =>
+      simp only [frameOf, Bool.false_eq_true, if_false]
+      rw [pop_err_post c ev hpost rp fs d ds A k0 hlen hd (by omega)]
+      simp [andThen]
+  · simp only [hm, decide_false, Bool.false_eq_true, if_false]
+    rw [pop_post c ev hpost _ fs d ds A k0 hlen hd (Or.inl (by omega))]
+    simp [andThen]
+
+/-- the one configuration in which walkdir loses post-order: a starting point that is a link to a
+    directory, followed only because it is a starting point (-H) -/
+def HRootLink (n : Node α) : Prop :=
+  c.follow = .roots ∧ ∃ nm r a kids, n = .dir nm true r a kids
+
+mutual
+theorem node_post (hpost : c.depthFirst = true) (n : Node α) (rp : List Name)
+    (fs : List (Frame α)) (ds : List (Ent α)) (A : Acc σ) (hlen : fs.length = ds.length)
+    (hmax : fs.length ≤ c.maxDepth) (hH : fs.length = 0 → ¬ HRootLink c n) :
+    stepA c ev (handleEntry (optsOf c) ⟨none, fs, ds⟩ rp fs.length n) A =
+      andThen (refNode c ev rp fs.length n A) (loopA c ev ⟨none, fs, ds⟩) := by
+  match n with
+  | .leaf nm k a =>
+    simp only [handleEntry, optsOf_fl, optsOf_fr]
+    have hfc : c.follow = .never ∨ c.follow = .roots ∨ c.follow = .always := by cases c.follow <;> simp
+    cases k <;> rcases hfc with hf | hf | hf <;> cases hD : (fs.length == 0) <;>
+      simp only [hf, hD, LeafKind.isLink, Bool.and_false, Bool.false_and, Bool.and_true, Bool.true_and,
+        Bool.false_eq_true, if_false, if_true, beq_self_eq_true, bne_self_eq_false, reduceCtorEq,
+        show (Follow.never == Follow.always) = false from rfl, show (Follow.roots == Follow.always) = false from rfl,
+        show (Follow.always == Follow.always) = true from rfl, show (Follow.never != Follow.never) = false from rfl,
+        show (Follow.roots != Follow.never) = true from rfl, show (Follow.always != Follow.never) = true from rfl,
+        show (LeafKind.plain == LeafKind.linkDangling) = false from rfl,
+        show (LeafKind.plain == LeafKind.linkLoop) = false from rfl,
+        show (LeafKind.linkFile == LeafKind.linkDangling) = false from rfl,
+        show (LeafKind.linkFile == LeafKind.linkLoop) = false from rfl,
+        show (LeafKind.linkDangling == LeafKind.linkDangling) = true from rfl,
+        show (LeafKind.linkDangling == LeafKind.linkLoop) = false from rfl,
+        show (LeafKind.linkLoop == LeafKind.linkDangling) = false from rfl,
+        show (LeafKind.linkLoop == LeafKind.linkLoop) = true from rfl,
+        show ((0 : Nat) == 0) = true from rfl] <;>
+      first
+      | exact leaf_loop c ev rp fs.length nm _ a _ A _ hmax (by simp [follows_iff, hf, hD])
+      | (refine (stepA_entry2 c ev _ _ _ _ _ A).trans ?_
+         refine Eq.trans ?_ (leaf_eval c ev (Or.inl hpost) rp fs.length nm _ a _ A (loopA c ev (skipCurrent ⟨none, fs, ds⟩)) (by simp [follows_iff, hf, hD]))
+         congr 1 <;> simp [mkVisit, hf, hD, LeafKind.isLink, follows_iff])
+      | (rw [stepA_visit c ev _ _ rfl]
+         refine Eq.trans ?_ (leaf_eval c ev (Or.inl hpost) rp fs.length nm _ a _ A (loopA c ev (skipCurrent ⟨none, fs, ds⟩)) (by simp [follows_iff, hf, hD]))
+         congr 1 <;> simp [mkVisit, toVisit, hf, hD, LeafKind.isLink, follows_iff])
+  | .dir nm l r a kids =>
+    rw [refNode_dir_post c ev hpost]
+    simp only [handleEntry, optsOf_cf, hpost, optsOf_fl, optsOf_fr, if_true]
+    by_cases hn : (!l || c.follow == .always) = true
+    · simp only [hn, if_true]
+      have hf : (!l || c.follows fs.length) = true := by
+        rw [follows_iff]; cases l <;> simp_all
+      simp only [hf, Bool.true_and]
+      have hv : visitOf c (⟨rp, fs.length, .dir nm l r a kids, l⟩ : Ent α) = mkVisit c rp fs.length (.dir nm l r a kids) := by
+        simp only [mkVisit, visitOf]
+        cases l <;> simp_all
+      rw [← hv, stepA_cont]
+      have hk := fun A' h => kids_post hpost kids rp fs ⟨rp, fs.length, .dir nm l r a kids, l⟩ ds A' hlen rfl h
+      exact below_post c ev hpost rp r kids fs _ ds A _ hlen rfl hk
+    · have hl : l = true := by cases l <;> simp_all
+      have hna : (c.follow == .always) = false := by cases l <;> simp_all
+      subst hl
+      simp only [hna, Bool.not_true, Bool.false_or, Bool.false_eq_true, if_false]
+      have hv : (⟨⟨rp, fs.length, .dir nm true r a kids, false⟩, fs.length == 0 && c.follow != .never, c.follow⟩ : Visit α)
+          = mkVisit c rp fs.length (.dir nm true r a kids) := by
+        simp [mkVisit, hna]
+      have hD : (fs.length == 0 && c.follow != .never) = false := by
+        cases hD' : (fs.length == 0 && c.follow != .never)
+        · rfl
+        · exfalso
+          simp only [Bool.and_eq_true, beq_iff_eq, bne_iff_ne] at hD'
+          apply hH hD'.1
+          refine ⟨?_, nm, r, a, kids, rfl⟩
+          cases hfc : c.follow <;> simp_all
+      have hf : c.follows fs.length = false := by rw [follows_iff]; simp [hna, hD]
+      simp only [hD, Bool.false_eq_true, if_false]
+      refine (stepA_entry2 c ev _ _ _ _ _ A).trans ?_
+      rw [hv]
+      simp only [hf, Bool.not_true, Bool.or_false, Bool.false_and]
+      rw [evalAt_post c ev hpost _ A _ (loopA c ev ⟨none, fs, ds⟩)]
+      simp [belowRef, andThen]
+theorem kids_post (hpost : c.depthFirst = true) (kids : List (Node α)) (rp : List Name)
+    (fs : List (Frame α)) (d : Ent α) (ds : List (Ent α)) (A : Acc σ) (hlen : fs.length = ds.length)
+    (hd : d.depth = fs.length) (hmax : fs.length + 1 ≤ c.maxDepth) :
+    loopA c ev ⟨none, ⟨rp, kids, false⟩ :: fs, d :: ds⟩ A =
+      andThen (refKids c ev rp (fs.length + 1) kids A)
+        (fun A' => evalAt c ev (visitOf c d) A' (loopA c ev ⟨none, fs, ds⟩) (loopA c ev ⟨none, fs, ds⟩)) := by
+  match kids with
+  | [] =>
+    rw [pop_post c ev hpost _ fs d ds A (loopA c ev ⟨none, fs, ds⟩) hlen hd (Or.inr ⟨rfl, rfl⟩)]
+    simp [refKids, andThen]
+  | n :: ns =>
+    rw [loopA_eq]
+    have hnl : ¬ (fs.length + 1 < ds.length + 1) := by omega
+    have h' : ¬ (fs.length + 1 > c.maxDepth) := by omega
+    simp only [step, optsOf_cf, hpost, Bool.true_and, List.length_cons, decide_eq_true_eq, hnl, if_false, optsOf_max,
+      h', Bool.false_eq_true]
+    have := node_post hpost n (n.name :: rp) (⟨rp, ns, false⟩ :: fs) (d :: ds) A (by simp [hlen])
+      (by simpa using hmax) (by simp)
+    simp only [List.length_cons] at this
+    rw [this, refKids]
+    unfold andThen
+    split
+    · rfl
+    · exact kids_post hpost ns rp fs d ds _ hlen hd hmax
+end
+
+/-- Post-order: the same, except for a starting point that is a link to a directory under -H. -/
+theorem processRoot_post (hpost : c.depthFirst = true) (root : Node α) (hH : ¬ HRootLink c root) (acc : σ) :
+    processRoot c ev root acc =
+      (let r := refRoot c ev root ⟨acc, 0, 0⟩
+       resOf r.1 r.2) := by
+  show loopA c ev (MState.init root) ⟨acc, 0, 0⟩ = _
+  rw [loopA_eq]
+  have := node_post c ev hpost root [] [] [] ⟨acc, 0, 0⟩ rfl (Nat.zero_le _) (fun _ => hH)
+  simp only [List.length_nil] at this
+  simp only [step, MState.init]
+  rw [this, refRoot]
+  unfold andThen
+  split
+  · simp_all
+  · rw [loopA_nil_post c ev _ hpost]
     simp_all
 
 end
